@@ -124,12 +124,26 @@ def rand_case(rng, nops):
     return Gen(rng, n, keys, safe).case(nops)
 
 
+def compact_cases():
+    """a same-node re-add, a prune tick (Compact keeps one dot per node) and a concurrent remove that saw only the
+    first dot, in several delivery orders (OR-set, and OR-map key set)"""
+    out = []
+    for pr in ("p:0", "p:0 p:0", "p:1 p:0"):
+        # A=0 adds x (log 0) -> B=1, C=2; A adds x again (log 1) -> B; C removes x having seen only the first dot (log 2);
+        # A compacts; C's remove reaches A, then everybody exchanges full states
+        out.append(f"n=3 u:0:os:a.1 s:1:0 s:2:0 u:0:os:a.1 s:1:1 u:2:os:r.1 {pr} s:0:2 g:0:os g:1:os a:1:0 s:1:3 g:1:os")
+        out.append(f"n=3 u:0:os:a.1 s:2:0 u:0:os:a.1 u:2:os:r.1 s:0:2 {pr} g:0:os s:1:1 p:1 s:1:2 g:1:os")
+        out.append(f"n=3 u:0:om:s.1.2 s:1:0 s:2:0 u:0:om:s.1.3 s:1:1 u:2:om:r.1 {pr} s:0:2 g:0:om g:1:om")
+    out.append("n=2 u:0:os:a.1 u:0:os:a.1 u:0:os:a.1 p:0 g:0:os s:1:2 p:1 g:1:os u:1:os:r.1 s:0:3 g:0:os")
+    return out
+
+
 def gen_cases(rng, tier):
-    return [rand_case(rng, rng.randint(3, 36)) for _ in range(260 if tier == "quick" else 7000)]
+    return compact_cases() + [rand_case(rng, rng.randint(3, 36)) for _ in range(260 if tier == "quick" else 7000)]
 
 
 def search_cases(rng, tier):
-    return [rand_case(rng, rng.randint(3, 24)) for _ in range(1500 if tier == "quick" else 8000)]
+    return compact_cases() + [rand_case(rng, rng.randint(3, 24)) for _ in range(1500 if tier == "quick" else 8000)]
 
 
 def compare(case, impl, model):
@@ -153,11 +167,47 @@ def oracle(case, impl, judge):
     return None if judge.startswith("ok") else judge
 
 
+# ---- "is this failure one of the recorded findings?" is decided by the MODEL ----------------------------------------
+# The Lean model (Model/Crdt + Model/C41 + Model/C40) is the code as it is, recorded defects included, and the
+# differential keeps it equal to the code.  A failing script belongs to a recorded finding exactly when the model run
+# on the same script fails the oracle in the same way (same op, same key, same expected/exposed values).  A seeded or
+# new defect makes the implementation fail where the model does not (or differently) -> not classified -> VIOLATION
+# with that script.  The textual signatures below are kept as a second, necessary condition.
+import os as _os, subprocess as _sp
+_DRIVER = _os.path.join(_os.path.dirname(_os.path.dirname(_os.path.dirname(_os.path.abspath(__file__)))), "lean", ".lake", "build", "bin", "gvdriver")
+_cache = {}
+
+
+def _model_verdict(case):
+    """the judge's verdict on the MODEL's own output for this script (None when the driver is unavailable)"""
+    if case in _cache:
+        return _cache[case]
+    v = None
+    try:
+        if _os.path.exists(_DRIVER):
+            m = _sp.run([_DRIVER, "C39", "model"], input=case + "\n", capture_output=True, text=True, timeout=120).stdout.split("\n")[0]
+            v = _sp.run([_DRIVER, "C39", "judge"], input=case + "\t" + m + "\n", capture_output=True, text=True, timeout=120).stdout.split("\n")[0]
+    except Exception:
+        v = None
+    _cache[case] = v
+    return v
+
+
+def classify(case, impl, why):
+    fid = _classify_text(case, impl, why)
+    if fid is None:
+        return None
+    mv = _model_verdict(case)
+    if mv is None:
+        return fid  # driver unavailable: textual signature only
+    return fid if mv == (why or "") else None
+
+
 def _set(s):
     return {x for x in s.split(",") if x != ""}
 
 
-def classify(case, impl, why):
+def _classify_text(case, impl, why):
     """C39-F1: the or-set value check fails (elements lost; or, as a consequence, a remove that does not take effect on a
     peer because the remover had itself lost the dot) in a script where, before the failing op, some replica performed at
     least two or-set updates and some logged message was delivered - the precondition of the defect.
